@@ -229,9 +229,16 @@ func (h *Hub) run() {
 					case dst.clientMsg <- msg:
 					default:
 						logs.Err.Println("hub: topic's broadcast queue is full", dst.name)
+						if msg.Note == nil && msg.sess != nil {
+							// Notes are not acknowledged, all other requests must be answered.
+							msg.sess.queueOut(ErrServiceUnavailableReply(msg, msg.Timestamp))
+						}
 					}
 				} else {
 					logs.Warn.Println("hub: invalid topic category for broadcast", dst.name)
+					if msg.Note == nil && msg.sess != nil {
+						msg.sess.queueOut(ErrServiceUnavailableReply(msg, msg.Timestamp))
+					}
 				}
 			} else if msg.Note == nil {
 				// Topic is unknown or offline.
